@@ -287,10 +287,10 @@ var scenarios = []scenario{
 		c := s.mk("mkdir", s.root(), "c")
 		s.mk("create", b, "p")
 		s.mk("create", c, "q")
-		s.mk("create", a, "late") // larger number than c and its file
-		s.opRename(c, "q", a, "late")    // source directory above target directory
+		s.mk("create", a, "late")     // larger number than c and its file
+		s.opRename(c, "q", a, "late") // source directory above target directory
 		s.mk("create", c, "q2")
-		s.opRename(a, "late", c, "q2")   // and back
+		s.opRename(a, "late", c, "q2") // and back
 		s.mk("create", s.root(), "top")
 		s.opRename(c, "q2", s.root(), "top")
 		s.opRename(s.root(), "top", b, "p")
